@@ -44,6 +44,11 @@ pub struct GenCfg {
     pub vft_num: u64,
     /// a type takes bases with probability base_num/3
     pub base_num: u64,
+    /// virtual functions without a receiver (their wrappers do not compile: finding F30; L0/L1 checks only)
+    pub static_vfuncs: bool,
+    /// function names drawn from a small shared pool now and then, so that names clash between bases,
+    /// between base and derived, and between vftable and impl functions
+    pub shared_names: bool,
 }
 
 impl GenCfg {
@@ -76,6 +81,8 @@ impl GenCfg {
             hazard_names: true,
             vft_num: 1,
             base_num: 1,
+            static_vfuncs: false,
+            shared_names: true,
         }
     }
     pub fn layout_only(w: u64) -> GenCfg {
@@ -172,6 +179,25 @@ impl<'t, 'd> Gen<'t, 'd> {
             }
         }
         v
+    }
+
+    /// A function name: usually fresh, sometimes from a small shared pool (never one of `avoid`).
+    fn fn_name(&mut self, prefix: &str, avoid: &[String]) -> String {
+        if self.cfg.shared_names && self.t.chance(1, 5) {
+            let cand = format!("shared{}", self.t.below(4));
+            if !avoid.contains(&cand) {
+                return cand;
+            }
+        }
+        self.fresh(prefix)
+    }
+
+    fn sty(&mut self) -> u8 {
+        if self.cfg.spellings {
+            (self.t.below(4) as u8) | if self.t.chance(1, 4) { 0x80 } else { 0 }
+        } else {
+            0
+        }
     }
 
     fn vis(&mut self) -> bool {
@@ -414,7 +440,7 @@ impl<'t, 'd> Gen<'t, 'd> {
 
     pub fn gen_func(&mut self, m: usize, name: String, is_vfunc: bool) -> Func {
         let mut args = vec![];
-        if is_vfunc || self.t.chance(3, 4) {
+        if (is_vfunc && !(self.cfg.static_vfuncs && self.t.chance(1, 6))) || (!is_vfunc && self.t.chance(3, 4)) {
             args.push(if self.t.chance(1, 2) { Arg::ConstSelf } else { Arg::MutSelf });
         }
         let n = self.t.below(if self.cfg.int_args_only { 7 } else { 5 });
@@ -440,6 +466,7 @@ impl<'t, 'd> Gen<'t, 'd> {
             Some(self.num(a))
         };
         Func {
+            sty: self.sty(),
             vis: self.vis(),
             name,
             doc: self.doc(3),
@@ -465,7 +492,7 @@ impl<'t, 'd> Gen<'t, 'd> {
         let last_declared = prefix.map(|p| vft_slots(p).slot.last().map(|s| s + 1).unwrap_or(0)).unwrap_or(0);
         let n = self.t.below(5);
         for _ in 0..n {
-            let name = self.fresh("vf");
+            let name = self.fn_name("vf", &funcs.iter().map(|f| f.name.clone()).collect::<Vec<_>>());
             let mut f = self.gen_func(m, name, true);
             let gap = if self.t.chance(1, 4) { 1 + self.t.below(3) } else { 0 };
             let slot = next + gap;
@@ -494,6 +521,7 @@ impl<'t, 'd> Gen<'t, 'd> {
         let name = self.fresh("T");
         let packed = self.cfg.packed && self.t.chance(1, 7);
         let mut td = TypeDef {
+            sty: self.sty(),
             vis: self.vis(),
             name: name.clone(),
             doc: self.doc(3),
@@ -573,6 +601,7 @@ impl<'t, 'd> Gen<'t, 'd> {
                 // state the position: as an address or as a preceding unknown gap
                 if self.t.chance(1, 3) {
                     fields.push(Field {
+                        sty: 0,
                         vis: false,
                         name: "_".into(),
                         ty: Ty::Unk(offset - cursor),
@@ -623,6 +652,7 @@ impl<'t, 'd> Gen<'t, 'd> {
             // not emitted either (generator restriction, DESIGN §2.1): never generated (arrays have >= 1 element)
             let fname_is_unnamed = fname == "_";
             fields.push(Field {
+                sty: self.sty(),
                 vis: if is_base && self.prog.mods.len() > 1 { true } else { self.vis() },
                 name: fname,
                 ty,
@@ -661,6 +691,7 @@ impl<'t, 'd> Gen<'t, 'd> {
                 }
                 if self.t.chance(1, 3) {
                     td.fields.push(Field {
+                        sty: 0,
                         vis: false,
                         name: "_".into(),
                         ty: Ty::Unk(size - cursor),
@@ -733,8 +764,17 @@ impl<'t, 'd> Gen<'t, 'd> {
                 if self.cfg.impls && self.t.chance(1, 2) {
                     let n = 1 + self.t.below(3);
                     let mut funcs = vec![];
+                    // names already taken on this type (vftable wrappers, re-exposed base functions): an own
+                    // function of that name is rejected by pyxis, so avoid those
+                    let taken: Vec<String> = {
+                        let mut model = Model::new(&self.prog, w);
+                        let s = model.surface(m, idx);
+                        s.vfuncs.iter().chain(s.assoc.iter()).map(|x| x.name.clone()).chain(["vftable".to_string(), "get".to_string()]).collect()
+                    };
                     for _ in 0..n {
-                        let fname = self.fresh("fn");
+                        let mut avoid = taken.clone();
+                        avoid.extend(funcs.iter().map(|f: &Func| f.name.clone()));
+                        let fname = self.fn_name("fn", &avoid);
                         funcs.push(self.gen_func(m, fname, false));
                     }
                     self.prog.mods[m].impls.push(Impl { ty: td.name.clone(), funcs });
